@@ -163,11 +163,31 @@ func (o *Once) Do(f func()) {
 	}
 }
 
-// OnceFunc, OnceValue and OnceValues forward to the real implementations
-// (generic functions cannot be re-exported as values).
-func OnceFunc(f func()) func()                                 { return sync.OnceFunc(f) }
-func OnceValue[T any](f func() T) func() T                     { return sync.OnceValue(f) }
-func OnceValues[T1, T2 any](f func() (T1, T2)) func() (T1, T2) { return sync.OnceValues(f) }
+// OnceFunc, OnceValue and OnceValues are built on the simulated Once (the real ones block natively,
+// which a task holding the baton must never do).
+func OnceFunc(f func()) func() {
+	var o Once
+	return func() { o.Do(f) }
+}
+
+func OnceValue[T any](f func() T) func() T {
+	var o Once
+	var v T
+	return func() T {
+		o.Do(func() { v = f() })
+		return v
+	}
+}
+
+func OnceValues[T1, T2 any](f func() (T1, T2)) func() (T1, T2) {
+	var o Once
+	var v1 T1
+	var v2 T2
+	return func() (T1, T2) {
+		o.Do(func() { v1, v2 = f() })
+		return v1, v2
+	}
+}
 
 // Pool is sync.Pool behind the seam: the real one keeps per-P free lists and is emptied by the
 // garbage collector, so what Get returns would depend on which OS thread carries the running task
